@@ -117,6 +117,33 @@ def r2(ctx, R):
                         f2 = Fg.at(cc) or set()
                         if any(fa[0] == "cond" and fa[2] is True and "startswith(" in fa[1] and "prefix" in fa[1] for fa in f2):
                             filtered = True
+            if not filtered:
+                # comprehension form: [... for v in cands if <prefix test>], the test inline or in a nested helper
+                def prefix_test(e, fn, depth=0):
+                    for x in ast.walk(e):
+                        if isinstance(x, ast.Call) and isinstance(x.func, ast.Attribute) and x.func.attr == "startswith" and x.args and "prefix" in unparse(x.args[0]):
+                            return True
+                        if isinstance(x, ast.Call) and isinstance(x.func, ast.Name) and depth < 2:
+                            k_, tg = ctx.r.resolve_call(fn, x)
+                            if k_ == "nested":
+                                for t in tg:
+                                    hh = ctx.m.funcs[t]
+                                    if any(isinstance(rr, ast.Return) and rr.value is not None and prefix_test(rr.value, hh, depth + 1) for rr in ctx.m.walk_own(hh.node)):
+                                        return True
+                    return False
+
+                def comp_filtered(e, depth=0):
+                    if isinstance(e, ast.Name) and depth < 3:
+                        ds = [v for _, v in defs_of(ctx, g, e.id) if v is not None]
+                        return bool(ds) and all(comp_filtered(v, depth + 1) for v in ds)
+                    if isinstance(e, (ast.ListComp, ast.GeneratorExp)):
+                        if any(prefix_test(i, g) for gen in e.generators for i in gen.ifs):
+                            return True
+                        return any(comp_filtered(gen.iter, depth + 1) for gen in e.generators)
+                    return False
+
+                if r.value.elts and all(comp_filtered(x) for x in r.value.elts[:1]):
+                    filtered = True
             k = key(g, r)
             if unfiltered:
                 R.ok("C12.R2", g.short, k, loc(g, r), "unfiltered list only for an empty prefix")
@@ -318,12 +345,14 @@ def r6(ctx, R):
                 for _ in range(4):
                     while isinstance(base, ast.Call) and isinstance(base.func, ast.Attribute):
                         base = base.func.value
-                    nb = deref(ctx, g, base, 1) if isinstance(base, ast.Name) else base
+                    own = ctx.m.enclosing_func(c) or g  # the test may sit in a nested helper
+                    nb = deref(ctx, own, base, 1) if isinstance(base, ast.Name) else base
                     if nb is base:
                         break
                     base = nb
                 if isinstance(base, ast.Name):
-                    srcs = [unparse(v) for _, v in defs_of(ctx, g, base.id) if v is not None]
+                    own = ctx.m.enclosing_func(c) or g
+                    srcs = [unparse(v) for _, v in defs_of(ctx, own, base.id) if v is not None]
                     if any(s == "rename" for s in srcs) and any(".name" in s for s in srcs):
                         okk = True
                         R.ok("C12.R6", g.short, "renamed entities matched by local name", loc(g, c))
